@@ -367,7 +367,10 @@ fn main() {
                                     drop(g);
                                 }
                                 _ => {
-                                    if let Some(b) = blk.lock().unwrap().as_ref() {
+                                    // never hold the (real) std mutex across a schedule point: another event thread that is
+                                    // due at the same instant would block on it while it holds the baton
+                                    let b = blk.lock().unwrap().clone();
+                                    if let Some(b) = b {
                                         b.unpark();
                                     }
                                 }
@@ -468,7 +471,9 @@ fn main() {
             }
             let o = out.lock().unwrap().take().unwrap();
             println!("CASE {} {} {} {} {} {} {} 1 => {} {}", if mode == "mpsc" { 0 } else { 1 }, if in_co { 0 } else { 1 }, o.t0, dmax, o.res, o.t1, tc + 2 * MS, o.res, o.t1);
-            if o.res != 0 || o.t1 != tc + 2 * MS {
+            // prompt, not "at the same virtual instant": when several threads are ready at once the virtual clock may
+            // advance by polling quanta (at most 5 ms each) before the poller gets the baton
+            if o.res != 0 || o.t1 < tc + 2 * MS || o.t1 > tc + 2 * MS + 20 * MS {
                 ctx.fail(format!("a call with Duration::MAX as timeout {} at {} (the event came at {})", match o.res { 9 => "panicked", 1 => "timed out", 0 => "returned the event", _ => "failed" }, o.t1, tc + 2 * MS));
             }
         }
